@@ -38,10 +38,12 @@ class Sp:
         digits = '%x' % cp if k < 0.8 else '%06x' % cp
         if self.flip(0.3):
             digits = digits.upper()
+        # the single white space that ends a hex escape may be any CSS white space unit: blank, tab, LF, FF, CR or CR LF
+        term = ' ' if (in_string or not self.flip(0.35)) else self.r.choice(['\t', '\n', '\f', '\r\n', ' '])     # not a lone CR: a following LF would merge with it into one unit
         if len(digits) < 6:
-            return '\\' + digits + ' '          # the blank is always safe (and needed before a hex digit / blank)
+            return '\\' + digits + term         # a terminator is always safe (and needed before a hex digit / blank)
         # CSS: one white space after a hex escape belongs to the escape, so terminate it where white space may follow
-        return '\\' + digits + (' ' if nxt is None or nxt in ' \t\n\r\f' or self.flip(0.3) else '')
+        return '\\' + digits + (term if nxt is None or nxt in ' \t\n\r\f' or self.flip(0.3) else '')
 
     def ident(self, s):
         if self.p == 0 or s == '-' or s == '':
